@@ -99,7 +99,7 @@ with open(os.path.join(V, "seeded", "README.md"), "w") as f:
     f.write("# Seeded changes\n\nEach directory holds `patch.diff` (a change to tokio-rs/bytes that breaks one property while compiling and passing the "
             "pinned test suite), the author's demonstration `demo.rs` (fails with the change, passes without), `author_notes.md` and `meta.json`.\n"
             "All were written by fresh sub-agents (rounds 1-3: one property each, told which mechanisms were already used; round 4 `E..`: one area of the "
-            "source each, two changes); all were confirmed at /repo HEAD in a scratch worktree (pure memory-ordering changes only fail under Miri). "
+            "source each, two changes; rounds 5-10 `F..` - `K..` likewise, one property (F, I) or one area (G, H, J, K) per author); all were confirmed at /repo HEAD in a scratch worktree (pure memory-ordering changes only fail under Miri). "
             "None is ever committed to /repo.\n\n"
             "`./check selftest --seeded` re-applies each one and expects a VIOLATION from the first check listed under `detected_by`.\n"
             "Column *first run* says whether the quick check of the change's own property caught it before the checks were strengthened for that round "
